@@ -401,8 +401,8 @@ pub fn gen_windows(t: &mut Tape) -> Vec<Vec<f64>> {
     }
 }
 
-/// Now and then replace one *mean of a dynamic feature* (never a variance, a static mean or a
-/// voicing weight, so synthesis stays well-behaved) by a float32 with a special bit pattern:
+/// Now and then replace one mean (of a dynamic feature, or any mean of a mel-cepstral stream; never
+/// a variance, an LSP / log-F0 / low-pass static mean or a voicing weight, so synthesis stays well-behaved) by a float32 with a special bit pattern:
 /// +0.0, -0.0 or a subnormal. Loading must preserve the bits.
 fn special_entries(t: &mut Tape, mut p: Vec<f32>, protect: usize) -> Vec<f32> {
     // PDFs are [means | variances | msd?]; the first `protect` means are static features
@@ -629,7 +629,7 @@ pub fn gen_voice(t: &mut Tape, o: GenOpts) -> VoiceSpec {
         options.swap(i, j);
     }
     let spec_name = if lsp { "LSP" } else { "MCP" };
-    let spec_model = gen_model(t, if lsp { "lsp" } else { "mgc" }, &states, spec_len * nw * 2, o.max_depth, spec_len, spec_pdf);
+    let spec_model = gen_model(t, if lsp { "lsp" } else { "mgc" }, &states, spec_len * nw * 2, o.max_depth, if lsp { spec_len } else { 0 }, spec_pdf);
     // GV statistics consistent with the stream's own PDFs (variance of the static means over all
     // PDFs, times a factor in [0.5,1.5]) so that GV does not push parameters out of the stable range
     let static_var = |m: &ModelSpec, l: usize, k: usize| -> f64 {
